@@ -47,15 +47,16 @@ def main() -> int:
         ddir.mkdir()
         for p in demo_files:
             txt = p.read_text(errors="replace")
-            txt = re.sub(r"/tmp/mut/C\d\d(?:/MUTATION\d)?(?=/src|['\"/ ]|$)", lambda mm: str(wt) if "MUTATION" not in mm.group(0) else str(ddir), txt)
+            txt = re.sub(r"/tmp/mut\d*/C\d\d(?:/MUTATION\d)?(?=/src|['\"/ ]|$)", lambda mm: str(wt) if "MUTATION" not in mm.group(0) else str(ddir), txt)
             (ddir / p.name).write_text(txt)
         demo = next((p for p in demo_files if p.name.startswith("demo")), demo_files[0])
-        use_pytest = "--python" not in sys.argv and (("python -m pytest" in how and demo.name in how) or demo.name.startswith("test_"))
+        pytester = "-p pytester" in how
+        use_pytest = pytester or ("--python" not in sys.argv and (("python -m pytest" in how and demo.name in how) or demo.name.startswith("test_")))
         tmproot = Path("/tmp/mv-tmp") / name
         shutil.rmtree(tmproot, ignore_errors=True)
         tmproot.mkdir(parents=True)
         env = dict(os.environ, PYTHONPATH=f"{wt}/src", PYTEST_DEBUG_TEMPROOT=str(tmproot), PYTHONDONTWRITEBYTECODE="1")
-        cmd = (f"/venv/bin/python -m pytest -q -p no:cacheprovider -x {ddir / demo.name}" if use_pytest
+        cmd = (f"/venv/bin/python -m pytest -q -p no:cacheprovider {'-p pytester ' if pytester else '-x '}{ddir / demo.name}" if use_pytest
                else f"/venv/bin/python {ddir / demo.name}")
         res["demo_cmd"] = cmd
         rc0, out0 = sh(cmd, str(wt), env, 900)
